@@ -5,11 +5,14 @@
 //! agree and answers with a status, headers and a streamed body derived from the id; the client
 //! checks that what it gets back belongs to its own request and is complete.
 //!
-//! line: `e2e <buf> <pool 0|1> <tls 0|1|2|3> [<shutdown signal at ms>] ; <req> ; <req> …`
+//! line: `e2e <buf | tcp> <pool 0|1> <tls 0|1|2|3> [<shutdown signal at ms>] ; <req> ; <req> …`
+//!   `tcp` instead of a buffer size: the servers listen on real TCP sockets (127.0.0.1, ephemeral ports) and the client connects
+//!   through hyperdriver's own `TcpTransport` (getaddrinfo resolver, happy-eyeballs connect) behind a wrapper that maps the
+//!   scenario's origins to those ports; real time, every time in the scenario divided by ten
 //!   with a signal time every server runs `with_graceful_shutdown`; observations then also carry the virtual ms at which each
 //!   request's handler was entered and `srv=<serving futures that completed Ok>/<servers>` (C07)   (tls 2 / 3: the server's ALPN offers only http/1.1 / only h2)
 //!   (method `W` = protocol upgrade: GET with `Upgrade`, 101, then `bodylen` bytes to the server and `resplen` bytes back on the upgraded stream)
-//!   req: `<id> <ver 11|2> <origin 0-5: scheme/host/port variants, see `origin`> <method G|P|U|D|H|W, `h` appended: the caller sets its own Host header>
+//!   req: `<id> <ver 10|11|2> <origin 0-5: scheme/host/port variants, see `origin`> <method G|P|U|D|H|W, `h` appended: the caller sets its own Host header>
 //!         <pathlen | root: the path is `/` | nopath: the URI has no path> <querylen> <bodylen> <bodychunk> <bodyexact 0|1>
 //!         <handler delay ms> <resplen> <respchunk> <respexact 0|1> <start ms> <cancel after ms|->`
 //! obs : per request `<id>=<ok|cancelled|timeout|err:CLASS|mismatch:FIELDS>/<handler calls>/<ok|aborted|bad:FIELDS|->`
@@ -64,8 +67,33 @@ impl http_body::Body for ChunkBody {
 }
 use std::future::Future;
 
+/// times of a scenario are divided by this in real-time (TCP) mode
+static SCALE: std::sync::atomic::AtomicU64 = std::sync::atomic::AtomicU64::new(1);
+fn ms(t: u64) -> Duration { let k = SCALE.load(std::sync::atomic::Ordering::Relaxed); if k == 1 { Duration::from_millis(t) } else { Duration::from_micros(t * 1000 / k) } }
+fn real_time() -> bool { SCALE.load(std::sync::atomic::Ordering::Relaxed) != 1 }
+
+/// transport for the TCP mode: rewrites the scenario's authority to the loopback address and port of the server it names,
+/// then hands over to hyperdriver's `TcpTransport`
+#[derive(Clone)]
+struct PortMap { inner: hyperdriver::client::conn::transport::tcp::TcpTransport, ports: Vec<u16> }
+impl tower::Service<http::request::Parts> for PortMap {
+    type Response = hyperdriver::stream::tcp::TcpStream;
+    type Error = hyperdriver::client::conn::transport::tcp::TcpConnectionError;
+    type Future = <hyperdriver::client::conn::transport::tcp::TcpTransport as tower::Service<http::request::Parts>>::Future;
+    fn poll_ready(&mut self, cx: &mut Context<'_>) -> Poll<Result<(), Self::Error>> { tower::Service::poll_ready(&mut self.inner, cx) }
+    fn call(&mut self, mut req: http::request::Parts) -> Self::Future {
+        if let Some(k) = server_of(&req.uri) {
+            let host = if k % 2 == 0 { "127.0.0.1" } else { "localhost" };
+            let mut p = req.uri.clone().into_parts();
+            p.authority = Some(format!("{host}:{}", self.ports[k]).parse().unwrap());
+            req.uri = http::Uri::from_parts(p).unwrap();
+        }
+        tower::Service::call(&mut self.inner, req)
+    }
+}
+
 #[derive(Clone, Debug)]
-struct R { id: u64, h2: bool, origin: u64, method: &'static str, own_host: bool, shape: u8, plen: usize, qlen: usize, blen: usize, bchunk: usize, bexact: bool,
+struct R { id: u64, h2: bool, h10: bool, origin: u64, method: &'static str, own_host: bool, shape: u8, plen: usize, qlen: usize, blen: usize, bchunk: usize, bexact: bool,
            delay: u64, rlen: usize, rchunk: usize, rexact: bool, start: u64, cancel: Option<u64> }
 
 fn parse_req(t: &[&str]) -> Option<R> {
@@ -73,7 +101,7 @@ fn parse_req(t: &[&str]) -> Option<R> {
     let n = |i: usize| t[i].parse::<u64>().ok();
     let (own_host, m) = match t[3].strip_suffix('h') { Some(m) => (true, m), None => (false, t[3]) };
     let (shape, plen) = match t[4] { "root" => (1u8, 0), "nopath" => (2u8, 0), _ => (0u8, n(4)? as usize) };
-    Some(R { id: n(0)?, h2: t[1] == "2", origin: n(2)?, own_host, shape, plen, method: match m { "G" => "GET", "P" => "POST", "U" => "PUT", "D" => "DELETE", "H" => "HEAD", "W" => "UPGRADE", _ => return None },
+    Some(R { id: n(0)?, h2: t[1] == "2", h10: t[1] == "10", origin: n(2)?, own_host, shape, plen, method: match m { "G" => "GET", "P" => "POST", "U" => "PUT", "D" => "DELETE", "H" => "HEAD", "W" => "UPGRADE", _ => return None },
         qlen: n(5)? as usize, blen: n(6)? as usize, bchunk: n(7)? as usize, bexact: t[8] == "1", delay: n(9)?, rlen: n(10)? as usize,
         rchunk: n(11)? as usize, rexact: t[12] == "1", start: n(13)?, cancel: if t[14] == "-" { None } else { Some(n(14)?) } })
 }
@@ -184,7 +212,7 @@ async fn handler(log: Arc<Mutex<SrvLog>>, me: usize, req: http::Request<Body>) -
         e.1 = if !bad.is_empty() { format!("bad:{}", bad.join(",")) } else if aborted { "aborted".into() } else { "ok".into() };
     }
     let delay = hn("x-d") % 100000;
-    if delay > 0 { tokio::time::sleep(Duration::from_millis(delay)).await; }
+    if delay > 0 { tokio::time::sleep(ms(delay)).await; }
     if let Some(on) = on_upgrade {
         // switch protocols: afterwards the client sends `x-ul` pattern bytes and gets `x-rl` pattern bytes back
         let (ul, rl, log2) = (hn("x-ul") as usize % 10_000_000, hn("x-rl") as usize % 10_000_000, log.clone());
@@ -225,7 +253,7 @@ fn build(r: &R, tls: bool) -> http::Request<ChunkBody> {
     let mut b = http::Request::builder()
         .method(if upgrade { "GET" } else { r.method })
         .uri(uri)
-        .version(if r.h2 { http::Version::HTTP_2 } else { http::Version::HTTP_11 });
+        .version(if r.h2 { http::Version::HTTP_2 } else if r.h10 { http::Version::HTTP_10 } else { http::Version::HTTP_11 });
     if upgrade { b = b.header(http::header::CONNECTION, "upgrade").header(http::header::UPGRADE, "hdverif"); }
     if r.own_host { b = b.header(http::header::HOST, format!("vhost{}.test", r.id)).header("x-hc", format!("vhost{}.test", r.id)); }
     b
@@ -235,7 +263,7 @@ fn build(r: &R, tls: bool) -> http::Request<ChunkBody> {
         .header("x-d", r.delay.to_string()).header("x-rl", r.rlen.to_string()).header("x-rc", r.rchunk.to_string())
         .header("x-re", if r.rexact { "1" } else { "0" }).header("x-custom", format!("v{}", r.id))
         .header("x-ul", r.blen.to_string())
-        .body(if upgrade { ChunkBody::default() } else { ChunkBody::new(pat(r.id, 1, r.blen), r.bchunk, r.bexact, if r.id % 3 == 0 { 1 } else { 0 }) })
+        .body(if upgrade { ChunkBody::default() } else { ChunkBody::new(pat(r.id, 1, r.blen), r.bchunk, r.bexact, if r.id % 3 == 0 && !real_time() { 1 } else { 0 }) })
         .unwrap()
 }
 
@@ -248,7 +276,7 @@ fn classify(e: &hyperdriver::client::Error) -> String {
 }
 
 async fn one(svc: hyperdriver::service::SharedService<http::Request<ChunkBody>, http::Response<Body>, hyperdriver::client::Error>, r: R, tls: bool) -> String {
-    tokio::time::sleep(Duration::from_millis(r.start)).await;
+    tokio::time::sleep(ms(r.start)).await;
     let work = async {
         let mut resp = match svc.oneshot(build(&r, tls)).await { Ok(x) => x, Err(e) => return format!("err:{}", classify(&e)) };
         if r.method == "UPGRADE" {
@@ -285,7 +313,7 @@ async fn one(svc: hyperdriver::service::SharedService<http::Request<ChunkBody>, 
         if bad.is_empty() { "ok".to_string() } else { format!("mismatch:{}", bad.join(",")) }
     };
     match r.cancel {
-        Some(c) => tokio::select! { biased; o = work => o, _ = tokio::time::sleep(Duration::from_millis(c)) => "cancelled".to_string() },
+        Some(c) => tokio::select! { biased; o = work => o, _ = tokio::time::sleep(ms(c)) => "cancelled".to_string() },
         None => match tokio::time::timeout(Duration::from_secs(600), work).await { Ok(o) => o, Err(_) => "timeout".to_string() },
     }
 }
@@ -298,10 +326,17 @@ async fn run_case(buf: usize, pool: bool, tls: bool, alpn_srv: &str, sig: Option
     let mut clients = vec![];
     let mut servers = vec![];
     let mut held = vec![];
+    let mut ports = vec![];
     for me in 0..NSERVERS {
-        let (client, incoming) = duplex::pair();
-        clients.push(client);
-        let acceptor = Acceptor::from(incoming);
+        let acceptor = if real_time() {
+            let l = tokio::net::TcpListener::bind((std::net::Ipv4Addr::LOCALHOST, 0)).await.unwrap();
+            ports.push(l.local_addr().unwrap().port());
+            Acceptor::from(l)
+        } else {
+            let (client, incoming) = duplex::pair();
+            clients.push(client);
+            Acceptor::from(incoming)
+        };
         let acceptor = if tls { acceptor.with_tls(Arc::new(crate::tls::server_config("good", alpn_srv))) } else { acceptor };
         let log2 = log.clone();
         let make = hyperdriver::service::make_service_fn(move |_io: &hyperdriver::server::conn::Stream| {
@@ -359,10 +394,17 @@ async fn run_case(buf: usize, pool: bool, tls: bool, alpn_srv: &str, sig: Option
     if let Some(t) = sig {
         tokio::spawn(async move { tokio::time::sleep(Duration::from_millis(t)).await; let _ = sig_tx.send(true); std::future::pending::<()>().await; });
     }
-    let b = Client::builder().with_transport(Route { servers: clients, buf }).with_protocol(hyperdriver::client::conn::protocol::auto::HttpConnectionBuilder::<ChunkBody>::default()).without_redirects();
-    let b = if pool { b.with_default_pool() } else { b.without_pool() };
-    let b = if tls { b.with_tls(crate::tls::client_config("both")) } else { b.without_tls() };
-    let svc = b.with_body::<ChunkBody, Body>().build_service();
+    macro_rules! client { ($transport:expr) => {{
+        let b = Client::builder().with_transport($transport).with_protocol(hyperdriver::client::conn::protocol::auto::HttpConnectionBuilder::<ChunkBody>::default()).without_redirects();
+        let b = if pool { b.with_default_pool() } else { b.without_pool() };
+        let b = if tls { b.with_tls(crate::tls::client_config("both")) } else { b.without_tls() };
+        b.with_body::<ChunkBody, Body>().build_service()
+    }}; }
+    let svc = if real_time() {
+        client!(PortMap { inner: hyperdriver::client::conn::transport::tcp::TcpTransport::default(), ports })
+    } else {
+        client!(Route { servers: clients, buf })
+    };
     let handles: Vec<_> = reqs.iter().cloned().map(|r| (r.id, tokio::spawn(one(svc.clone(), r, tls)))).collect();
     let mut outs = vec![];
     for (id, h) in handles {
@@ -370,7 +412,7 @@ async fn run_case(buf: usize, pool: bool, tls: bool, alpn_srv: &str, sig: Option
         outs.push((id, o));
     }
     // let handlers of cancelled requests finish before the log is read
-    tokio::time::sleep(Duration::from_secs(200)).await;
+    tokio::time::sleep(if real_time() { Duration::from_millis(60) } else { Duration::from_secs(200) }).await;
     drop(svc);
     // with a shutdown signal every serving future must have completed successfully by now
     let mut srv_ok = 0;
@@ -397,11 +439,14 @@ pub fn run(toks: &[&str]) -> String {
     let buf: usize = parts[0][0].parse().unwrap_or(1024);
     let reqs: Vec<R> = parts[1..].iter().filter_map(|p| parse_req(p)).collect();
     if reqs.len() != parts.len() - 1 { return "bad-input".into(); }
-    let rt = tokio::runtime::Builder::new_current_thread().enable_all().start_paused(true).build().unwrap();
+    let tcp = parts[0][0] == "tcp";
+    SCALE.store(if tcp { 10 } else { 1 }, std::sync::atomic::Ordering::Relaxed);
+    let rt = tokio::runtime::Builder::new_current_thread().enable_all().start_paused(!tcp).build().unwrap();
     // tls: 0 = none, 1 = TLS with ALPN h2+http/1.1 on the server, 2 = server offers http/1.1 only, 3 = server offers h2 only
     let tls = parts[0][2];
     let r = rt.block_on(run_case(buf, parts[0][1] == "1", tls != "0", match tls { "2" => "h11", "3" => "h2", _ => "both" }, sig, reqs));
     drop(rt);
+    SCALE.store(1, std::sync::atomic::Ordering::Relaxed);
     r
 }
 
@@ -409,6 +454,8 @@ pub fn run(toks: &[&str]) -> String {
 pub fn gen_signal(r: &mut Rng, i: u64) -> String {
     let base = gen(r, i);
     let (head, rest) = base.split_once(" ; ").unwrap();
+    // (the signal time is virtual: no real-socket scenarios here)
+    let head = head.replace("tcp", "1024");
     // requests start at 0-40 ms (+500 per round), handlers take up to 100 ms, bodies stream with 1 ms gaps
     let sig = *r.pick(&[0u64, 1, 3, 8, 15, 25, 40, 60, 110, 505, 520, 560]);
     // cancellations are C01's business: here every request runs to its end
@@ -438,7 +485,8 @@ pub fn gen(r: &mut Rng, _i: u64) -> String {
     for k in 0..n {
         let id = 1000 + k * 7 + r.below(7);
         let org = *r.pick(&pool_of);
-        let ver = if r.chance(1, 2) { "11" } else { "2" };
+        // (an HTTP/1.0 request is sent as HTTP/1.1 on an HTTP/1 connection, like any other below HTTP/2)
+        let ver = if r.chance(1, 2) { if r.chance(1, 6) { "10" } else { "11" } } else { "2" };
         let method = *r.pick(&["G", "P", "U", "D", "P", "G", "H", "W"]);
         // protocol upgrades are an HTTP/1.1 mechanism (on an HTTP/2 connection the Upgrade header is, correctly, dropped): they are
         // generated for one origin of the scenario, whose requests are then all HTTP/1.1, and not where TLS may negotiate h2
@@ -464,5 +512,7 @@ pub fn gen(r: &mut Rng, _i: u64) -> String {
         reqs.push(format!("{id} {ver} {} {method}{own_host} {plen} {} {blen} {bchunk} {bexact} {delay} {rlen} {rchunk} {} {start} {cancel}",
             org, if !force_query && r.chance(1, 2) { 0 } else { r.range(1, 30) }, r.chance(1, 2) as u8));
     }
+    // one scenario in twelve runs over real TCP sockets and hyperdriver's TcpTransport (real time, times divided by ten)
+    let buf = if r.chance(1, 12) { "tcp".to_string() } else { buf.to_string() };
     format!("{buf} {pool} {tls} ; {}", reqs.join(" ; "))
 }
